@@ -181,7 +181,8 @@ impl Stats {
     pub fn violation(&mut self, v: Violation) {
         // keep the first few per rule (cases are enumerated simplest first)
         let n = self.violations.iter().filter(|x| x.rule == v.rule).count();
-        if n < 3 {
+        let cap = if std::env::var("VERIF_ALL_VIOLATIONS").is_ok() { 100000 } else { 3 };
+        if n < cap {
             self.violations.push(v);
         } else {
             self.count(&format!("suppressed_dup_violation.{}", v.rule));
@@ -259,9 +260,31 @@ where F: Fn(usize, &mut Stats) + Sync {
     (st, done.load(Ordering::SeqCst))
 }
 
-/// Silence the default panic hook (panics of the subject are observations, not noise).
+thread_local! {
+    static LAST_PANIC: std::cell::RefCell<String> = const { std::cell::RefCell::new(String::new()) };
+}
+
+/// Silence the default panic hook (panics of the subject are observations, not noise); the message and
+/// location of the last panic of each thread are kept for reports.
 pub fn quiet_panics() {
-    std::panic::set_hook(Box::new(|_| {}));
+    std::panic::set_hook(Box::new(|info| {
+        let loc = info
+            .location()
+            .map(|l| format!("{}:{}", l.file(), l.line()))
+            .unwrap_or_default();
+        let msg = if let Some(s) = info.payload().downcast_ref::<&str>() {
+            s.to_string()
+        } else if let Some(s) = info.payload().downcast_ref::<String>() {
+            s.clone()
+        } else {
+            String::new()
+        };
+        let _ = LAST_PANIC.try_with(|p| *p.borrow_mut() = format!("{msg} @ {loc}"));
+    }));
+}
+
+pub fn last_panic() -> String {
+    LAST_PANIC.with(|p| p.borrow().clone())
 }
 
 // ---------------------------------------------------------------------------------------------
